@@ -12,11 +12,11 @@ P = {
  "C01": ("LX+SX", "model checking: loom explores every interleaving (preemption bound 2 quick / 3 thorough) of 1-3 waker threads against a small executor that sleeps until the most recent task waker is invoked - a lost wake-up is a reported deadlock; SX explores all push/poll/complete/wake/stale-wake/new-waker histories (depth 5 quick / 7 thorough, plus prefilled states with 62..130 children and 2-3 groups) with the invariant 'last poll Pending and a pushed-or-woken child un-polled => that poll's task waker was invoked' evaluated after every operation",
          "bounded: <=3 waker threads, preemption bound, history depth, deviation budget; spin's lock replaced by loom's mutex in the loom build", "§4, §6/C01"),
  "C02": ("SX", "model checking: all push/push_front/poll/complete/wake/stale-wake histories up to depth 6 (quick) / 8 (thorough) on 18 small shapes of the four collections plus populated multi-group states, against a multiset/deque reference; every prefix is also drained to the end and must yield exactly the accepted futures", "bounded depth/deviations/configurations as listed in the evidence", "§3, §6/C02"),
- "C03": ("LX+SX", "model checking: loom checks, per schedule, that every access to the shared waker block happens-before its release (canary cell in the header, hook H1) and that the block is released exactly once while wakers are cloned/woken/dropped on other threads against poll/drop of the collection; SX explores all orders in which the collection, stored wakers and cloned wakers die (depth 6/8) with allocation probes, deferred+poisoned frees, and sweeps every (capacity, slot) layout up to 64 (quick) / 512 (thorough)", "bounded: loom thread/preemption bounds; reads of released memory are only seen at waker-vtable entries (writes are seen via poisoning)", "§4, §6/C03"),
+ "C03": ("LX+SX", "model checking: loom checks, per schedule, that every access to the shared waker block happens-before its release (canary cell in the header, hook H1) and that the block is released exactly once while wakers are cloned/woken/dropped on other threads against poll/drop of the collection; SX explores all orders in which the collection, stored wakers and cloned wakers die (depth 6/8) with allocation probes, deferred+poisoned frees, and sweeps every (capacity, slot) layout up to 64 (quick) / 512 (thorough); the thorough tier also enumerates a small slice (6725 executions) under Miri as per-execution oracle", "bounded: loom thread/preemption bounds; reads of released memory are only seen at waker-vtable entries (writes are seen via poisoning)", "§4, §6/C03"),
  "C04": ("SX", "model checking: all push_back/push_front/poll/complete histories (depth 5/7) x 11 start values of the position counters adjacent to 0, the sign bit and usize::MAX against a VecDeque reference; ordered adapters with all upstream answers; join_all/try_join_all with all completion orders of up to 4 (quick) / 5 (thorough) inputs", "bounded depth; counter seeds are the 11 boundary-adjacent values, set through hook H3", "§6/C04"),
  "C05": ("SX", "model checking: histories that retain and invoke stale wakers, recycle slots and let children wake themselves in the poll in which they complete (depth 6/8); the scripted child flags any poll after completion and every poll call checks that children finished during it are already dropped", "bounded depth/configurations", "§6/C05"),
- "C06": ("SX", "model checking with every prefix as a drop point: after each explored prefix the subject is dropped, then retained wakers, then caller-held outputs; every child and every output token must have been dropped exactly once", "bounded depth (5/7) and configurations; panicking children are out of scope", "§6/C06"),
- "C07": ("SX", "model checking: join_all/try_join_all with every vector of up to 3 (quick) / 4 (thorough) inputs over {ready, late} x {Ok, Err}, all completion orders, polls continuing after the first Ready; fresh memory is 0xA5-filled so an unwritten slot is recognised deterministically", "an uninitialised element is recognised by its magic word", "§6/C07"),
+ "C06": ("SX", "model checking with every prefix as a drop point: after each explored prefix the subject is dropped, then retained wakers, then caller-held outputs; every child and every output token must have been dropped exactly once; thorough tier adds a Miri-interpreted slice", "bounded depth (5/7) and configurations; panicking children are out of scope", "§6/C06"),
+ "C07": ("SX", "model checking: join_all/try_join_all with every vector of up to 3 (quick) / 4 (thorough) inputs over {ready, late} x {Ok, Err}, all completion orders, polls continuing after the first Ready; fresh memory is 0xA5-filled so an unwritten slot is recognised deterministically; thorough tier adds a Miri-interpreted slice in which memory stays uninitialised", "an uninitialised element is recognised by its magic word", "§6/C07"),
  "C08": ("SX", "model checking: histories with a Move operation (the collection value is moved to a new heap location between polls), group creation/discard/rotation and slot reuse; each !Unpin child compares its address at every poll and at drop with that of its first poll", "MergeUnbounded requires Unpin sources, its sources are boxed; bounded depth", "§6/C08"),
  "C09": ("SX", "model checking: every upstream answer (item ready/late, Pending, end, error) is a choice point, with all completion orders, limits 1..3; oracles: unfinished futures <= n at all times, and at every Pending return n items in flight or upstream ended or upstream answered Pending in that call", "bounded depth (6/8) and deviation budget (2/3)", "§6/C09"),
  "C10": ("SX", "model checking: same exploration as C09 plus limit 0 of for_each_concurrent; oracles: upstream never polled after None, items/errors forwarded exactly once, end exactly when exhausted and idle, closure called once per item", "bounded as C09; limit 0 of for_each_concurrent is a known finding", "§6/C10"),
